@@ -88,9 +88,9 @@ def run(tier, seed, replay=None):
             f.write(list(objs))
         os.remove(fn)
 
-    def stlw(s):
+    def stlw(s, binary=True):
         fn = tmpf('stl')
-        with STL(fn) as f:
+        with STL(fn, binary=binary) as f:
             f.write(s, n=3) if s.pardim == 2 else f.write(s)
         os.remove(fn)
 
@@ -145,6 +145,9 @@ def run(tier, seed, replay=None):
         ('normal', lambda o: o.pardim == 2 and o.dimension == 3, lambda o, q: o.normal(*mid(o))),
         ('G2 write', lambda o: True, lambda o, q: g2w([o])),
         ('STL write', lambda o: o.pardim in (2, 3) and o.dimension == 3, lambda o, q: stlw(o)),
+        # planar surfaces are written with a zero third coordinate: the padding belongs to the file, not to the operand
+        ('STL write planar', lambda o: o.pardim == 2 and o.dimension == 2, lambda o, q: stlw(o)),
+        ('STL write ascii', lambda o: o.pardim == 2 and o.dimension in (2, 3), lambda o, q: stlw(o, False)),
         ('SVG write', lambda o: o.pardim == 1 and o.dimension == 2 and not o.rational and o.bases[0].order <= 4, lambda o, q: svgw(o)),
         ('sf.extrude', lambda o: o.pardim == 1, lambda o, q: sf.extrude(o, [0.0, 0.5, 1.0])),
         ('sf.revolve', lambda o: o.pardim == 1 and o.dimension in (2, 3), lambda o, q: sf.revolve(o, 1.0)),
